@@ -31,14 +31,14 @@ func allSpecs() map[string]*PropSpec {
 		Technique:   "exact-operation tables over decimal calls on the verdict path (AST+types, SSA call sites), sibling agreement of the two analysis entry points by guard shape, sign-handling check of the number normaliser by slicing",
 		Explanation: "D-EXACT: every operation on decimal.Decimal in parser/analyzer/workspace/server (the path lexer value -> parseAmount -> CheckBalance/sumByCommodity -> message) is from the exact set (Add, Sub, Mul, Neg, Abs, IsZero, IsNegative, Cmp, String, NewFromString ...); T3: both analysis entry points call the balance check for every transaction and emit a diagnostic iff !Balanced; T4: the codes the analyzer writes are exactly the codes the server's filter switches on and UNBALANCED/MULTIPLE_INFERRED are gated by exactly the unbalanced-transactions setting; M-ORDER on the message builder. B-REAL: every read of a posting's amount below the balance check is made on a posting from the list that passed the virtual-posting filter (or behind a test of its Virtual field).",
 		NotDecided:  "that separator normalisation, sign placement and cost conversion compute the intended number (value semantics of normalizeNumber, parseAmount, sumByCommodity); hledger's own balancing rule.",
-		Rules:       []func(*Ctx){ruleDecimalExact("internal/parser", "internal/analyzer", "internal/workspace", "internal/server"), ruleNumberSign, ruleT3, ruleT4, ruleMapOrder, ruleBalanceReal, ruleDiagnosticsOnlyGrow},
+		Rules:       []func(*Ctx){ruleDecimalExact("internal/parser", "internal/analyzer", "internal/workspace", "internal/server"), ruleNumberSign, ruleT3, ruleT4, ruleMapOrder, ruleBalanceReal, ruleDiagnosticsOnlyGrow, ruleTreeReadOnly},
 	})
 	add(&PropSpec{
 		ID:          "C12",
 		Technique:   "effect summaries of index add/remove with parameter binding (inverse-operation table), snapshot coverage, must-clear of memoised caches per critical section, role-based fixpoint checks of the include-tree refresh",
 		Explanation: "T1: the workspace index's add and remove methods touch the same aggregates field by field and every add operation has an inverse on the remove side (+= / decrement, keyed append / keyed filter, per-file slot set / delete); an aggregate stored by overwrite and removed by key is reported as non-invertible. T2: the snapshot exports every aggregate. C12-CLEAR: every critical section of the workspace that mutates the resolved tree clears all memoised derived caches unconditionally. C12-UPDATE: a call of Workspace.UpdateFile in the notification handlers is not control dependent on the text (no nothing-relevant-changed short cut). C12-REFRESH: the include-tree refresh is a fixpoint that recomputes reachability in every iteration and is invoked whenever the include list changed (element-wise comparison). M-ORDER: no map-iteration order reaches the index.",
 		NotDecided:  "equality of the incremental and the rebuilt view as values over update sequences (needs execution); file-system effects (files unreadable during refresh).",
-		Rules:       []func(*Ctx){ruleT1T2, ruleC12Clear, ruleC12Refresh, ruleC12Pair, ruleC12Update, ruleWorkspaceApplies, ruleMapOrder},
+		Rules:       []func(*Ctx){ruleT1T2, ruleC12Clear, ruleC12Refresh, ruleC12Pair, ruleC12Update, ruleWorkspaceApplies, ruleWorkspaceReadsDisk, ruleMapOrder},
 	})
 	add(&PropSpec{
 		ID:          "C10",
@@ -74,15 +74,15 @@ func allSpecs() map[string]*PropSpec {
 		Technique:   "settings model extracted from the parser (key, converter, guarded store per leaf incl. helper functions), normaliser guard table, panic-instruction scan of everything reachable from the parser, lockset and read-modify-write analysis, overlay check of update functions",
 		Explanation: "T6: every leaf of the settings struct (enumerated from the type definitions) is assigned by the settings parser in a nested-key and a dotted-key form with the same spelling, each assignment guarded by its converter's ok result and fed from the converted value (ill-typed or unknown entries leave the previous value unchanged); no key feeds two leaves; every numeric leaf has a non-positive guard in the normaliser; every leaf is read by some feature outside the parser. C19-CONVERT: converters accept by type only (no range filter that would bypass the normaliser's default fallback, boolean spellings true/false only). C19-TOTAL: no module function reachable from the settings parser contains an unchecked assertion, index, slice, non-constant division or panic, and its recursion is on a member of its argument. C-LOCKSET on the settings struct; C-RMW: a configuration refresh reads the current settings, overlays the payload and stores the result inside one critical section, so that of two concurrent refreshes neither loses the other's recognised values. C19-OVERLAY: outside the initialisation phase every store into the settings derives from the current settings, and every function applied to the current settings at the call sites of the update routine returns a value computed from its argument (a wholesale replacement is only accepted from the constructor and Initialize). C19-PULL: every path through the configuration-change handler starts a pull of the client's configuration (no throttle or early return can drop a change).",
 		NotDecided:  "feature switches after initialisation (capabilities are computed once in Initialize); that a recognised value changes behaviour in the intended way (value semantics of each feature).",
-		Rules:       []func(*Ctx){ruleSettings, ruleLockset, ruleRMW, ruleOverlay, rulePull, ruleLoaderCache},
+		Rules:       []func(*Ctx){ruleSettings, ruleLockset, ruleRMW, ruleOverlay, rulePull, ruleLoaderCache, rulePublish, ruleIndent},
 	})
-	wsFresh := []func(*Ctx){ruleT1T2, ruleC12Clear, ruleC12Refresh, ruleC12Pair, ruleC12Update, ruleWorkspaceApplies}
+	wsFresh := []func(*Ctx){ruleT1T2, ruleC12Clear, ruleC12Refresh, ruleC12Pair, ruleC12Update, ruleWorkspaceApplies, ruleWorkspaceReadsDisk}
 	add(&PropSpec{
 		ID:          "C18",
 		Technique:   "guard-shape agreement of analysis entry points incl. helpers, writer/reader table of diagnostic codes vs. settings filter (decision table from switch or if-chain), control dependence of emission on declared and seen sets, SSA slicing of declaration sources",
 		Explanation: "T3: both analysis entry points run the undeclared-account/commodity checks under the same guard (len(declared set) > 0) for every transaction. T4: each warning code is gated by exactly its own settings field, the filter is applied to every analyzer diagnostic, its default is 'publish'. T9: the undeclared-commodity check visits every amount-bearing access path of a posting (amount, cost, assertion; derived from the ast type definitions). C18-ONCE: one warning per symbol and transaction (declared set and per-transaction seen set both guard the emission). C18-SOURCES: on the diagnostics path the declarations handed to the analyzer depend on the workspace's declared sets AND on the include tree loaded from the analysed content, and the workspace lookups are not conditioned on any setting. Workspace freshness rules (C12-CLEAR/REFRESH/PAIR, T1/T2) because declared sets are served from the workspace caches; C-LEAK because those sets are handed out by reference (a write into them by the analysis makes later warnings depend on which documents were analysed before); C18-SOURCES also requires the read of the document's own include tree not to be control dependent on the existence of a workspace.",
 		NotDecided:  "the declared-predicate itself (prefix / standard top-level category matching in isAccountDeclared).",
-		Rules:       append([]func(*Ctx){ruleT3, ruleOwnGuard, ruleT4, ruleT9("T9", [2]string{"internal/analyzer", "checkUndeclaredCommodities"}), ruleSeenOnce, ruleC18Sources, ruleLeak}, wsFresh...),
+		Rules:       append([]func(*Ctx){ruleT3, ruleOwnGuard, ruleTreeReadOnly, ruleT4, ruleT9("T9", [2]string{"internal/analyzer", "checkUndeclaredCommodities"}), ruleSeenOnce, ruleC18Sources, ruleLeak}, wsFresh...),
 	})
 	add(&PropSpec{
 		ID:          "C20",
@@ -96,14 +96,14 @@ func allSpecs() map[string]*PropSpec {
 		Technique:   "SSA slicing of Location constructions (URI vs journal key pairing), return-site analysis of the tree/primary-path function with control dependence, component coverage of the dedup equality, map-iteration-order effect analysis",
 		Explanation: "H-PRIMARY: the function that returns a resolved tree together with the path of its primary journal pairs the workspace tree with the workspace root journal path and the per-document tree with the document path; definition/references/rename pass tree and path from one such lookup; the primary journal is keyed by that path. T9: commodity references visit amount, cost and assertion commodities. T11: the three reference collectors share one skeleton (sorted paths, URI of each location derived from the path of the journal being walked, common sort+dedup), the dedup equality covers URI and all coordinates, rename edits are a 1:1 map of the references including declarations. C12-PAIR and workspace freshness: the tree that is searched is maintained consistently. M-ORDER. C09-TREE: the journal map that is searched contains the files of the given tree on every return (no short cut that looks at the requesting document only); the workspace tree also serves the workspace root itself.",
 		NotDecided:  "that the range inside each location is the right one (C08); parse equality after applying the edits; unsaved edits of files that are not open.",
-		Rules:       append([]func(*Ctx){ruleC09, ruleT9("T9", [2]string{"internal/server", "findCommodityReferences"}), ruleMapOrder, ruleLoaderCycle}, wsFresh...),
+		Rules:       append([]func(*Ctx){ruleC09, ruleT9("T9", [2]string{"internal/server", "findCommodityReferences"}), ruleAllSitesOfPosting, ruleMapOrder, ruleLoaderCycle}, wsFresh...),
 	})
 	add(&PropSpec{
 		ID:          "C16",
 		Technique:   "SSA pipeline analysis of the completion handler (generate, filter, rank, truncate by data flow and dominance), comparator direction check, edit-range stores traced to the request position, unit analysis",
 		Explanation: "I-LIMIT: the list returned by completion is the ranked list or its zero-based prefix ranked[:MaxResults] taken under len(ranked) > MaxResults, and the limit is read only by the normaliser, the settings parser and that truncation (so a smaller maximum yields a prefix of a larger one and at most the maximum is returned). I-ORDER: generate -> filter -> rank -> truncate by data flow. I-FLAG: the filter's mode argument is the unmodified fuzzyMatching setting from the per-request settings snapshot. I-RANK: the ranking comparator is descending in score and in use count. I-RANGE: the replace range ends at the request position, its start is a byte offset clamped to the cursor and converted to UTF-16. M-ORDER (item order), workspace freshness (names offered exist in the workspace) and T6 for the two completion settings. I-PAIR: the account index's list (All) and its per-prefix view (ByPrefix) are extended in the same functions (the lookup trusts ByPrefix when the prefix key exists).",
 		NotDecided:  "soundness/completeness of the offered set against the symbol table, the fuzzy and prefix predicates, the context classifier (value semantics).",
-		Rules:       append([]func(*Ctx){rulePipeline, rulePairedFields, ruleMapOrder, ruleUnits("module", nil)}, wsFresh...),
+		Rules:       append([]func(*Ctx){rulePipeline, rulePairedFields, ruleAnalysisFromAnalyzer, ruleMapOrder, ruleUnits("module", nil)}, wsFresh...),
 	})
 	add(&PropSpec{
 		ID:          "C08",
@@ -153,7 +153,7 @@ func allSpecs() map[string]*PropSpec {
 		Technique:   "abstract interpretation of lexer (byte classes, step width, progress) and parser (token kinds, progress), loop and recursion census with termination arguments by role, panic-instruction scan over SSA reachable from handlers, bounds and repeat-count clamps by slicing",
 		Explanation: "L-PROGRESS (byte-class abstract interpretation of the lexer, all calling contexts): every non-EOF token return happens after the position strictly increased since Next was entered, and EOF is returned only at the end of input - hence tokens never overlap, stay inside the input and tokenisation terminates with EOF for every byte string. P-PROGRESS (token-kind abstract interpretation of the parser): every path back to the head of a token loop consumes a token. LOOP-CENSUS: every other for-loop modifies a variable of its condition on every path (worklist/fixpoint loops admitted by name with their argument). REC-CENSUS: the only recursion is the guarded include recursion and the structural settings recursion. D-EXPONENT: a parsed quantity passes an Exponent() bound before it enters the tree. C06-REPEAT: Repeat counts are non-negative and configuration integers that reach them are clamped. C06-PANIC: no explicit panic, unchecked assertion or non-constant integer division on a request path. C06-BOUNDS: byte offsets converted from client columns are clamped before slicing. U-XSTR: a byte position obtained by ranging over one string is never used to index or slice a different string. N-NIL: every dereference of an optional part of a posting (pointer-typed field of ast.Posting) is reached only behind a nil test of that field. units (no byte/rune/UTF-16 mix feeding an index). L-STEP: the lexer position only moves by the decoded width of the current rune, so it cannot leave the input (slice bounds) or skip bytes.",
 		NotDecided:  "slice/index bounds in general (no sound bound analysis in reach), time proportional to size beyond loop progress (e.g. repeated lookahead), unsigned wrap-around in the token encoder.",
-		Rules:       []func(*Ctx){ruleLexer, ruleParser, ruleLoopCensus, ruleRecCensus, ruleDecimalExponent, ruleRepeat, rulePanic, ruleBounds, ruleOptionalDeref, ruleCrossIndex, ruleUnlock, ruleUnits("module", nil)},
+		Rules:       []func(*Ctx){ruleLexer, ruleParser, ruleLoopCensus, ruleRecCensus, ruleDecimalExponent, ruleRepeat, rulePanic, ruleBounds, ruleOptionalDeref, ruleCrossIndex, ruleUnlock, ruleDecimalDivision, ruleUnits("module", nil)},
 	})
 	add(&PropSpec{
 		ID:          "C03",
